@@ -4,7 +4,7 @@ set -e
 cd "$(dirname "$0")"
 mkdir -p build
 cd build
-coqc -Q ../../coq/theories Verif ../../coq/theories/Extract/Extract.v >/dev/null
+coqc -Q ../../coq/theories Verif ../../coq/theories/Extract/Extract.v >/dev/null 2>&1 || coqc -Q ../../coq/theories Verif ../../coq/theories/Extract/Extract.v
 cp ../driver.ml ../dispatch.ml .
 ocamlfind ocamlopt -O3 -w -a model.mli model.ml dispatch.ml driver.ml -o modelrun 2>/dev/null || \
 ocamlfind ocamlopt -w -a model.mli model.ml dispatch.ml driver.ml -o modelrun
